@@ -56,6 +56,9 @@ func (x *Exec) script(q *Query, quant bool, z3 bool, model bool) string {
 	}
 	if quant {
 		pre.WriteString(utf16Axioms())
+		if !isLemmaUnit(q.Unit) {
+			pre.WriteString(x.lemmaAxiomText())
+		}
 	}
 	var body strings.Builder
 	for _, d := range q.Decls {
@@ -236,6 +239,7 @@ func (x *Exec) dischargeSeed(q *Query, tier string, seed int) *Result {
 }
 
 func (x *Exec) dischargeAll(qs []*Query, tier string, workers int) []*Result {
+	x.lemmaAxiomText() // built once, before the workers start
 	res := make([]*Result, len(qs))
 	var wg sync.WaitGroup
 	ch := make(chan int)
